@@ -5,7 +5,7 @@ from .core import (Val, Sc, RefV, NoneV, TupleV, Cont, PyConst, FuncV, CellLoc, 
                    TermLoc, VCError, fresh)
 from .core import simp
 from .types import (T, INT, REAL, BOOL, STR, BYTES, OPTINT, IDENT, ANYREF, Ref, Str, Bytes, NONE, Ident,
-                    ident_of, cls_of)
+                    ident_of, cls_of, blen)
 
 _card = {}
 _wit = {}
@@ -38,7 +38,24 @@ def card_axioms():
     return ax
 
 
+bsum_fn = z3.Function('bsum', z3.ArraySort(z3.IntSort(), Bytes), z3.IntSort(), z3.IntSort())
+
+
+def bsum_axioms():
+    a = z3.Const('a', z3.ArraySort(z3.IntSort(), Bytes))
+    return [z3.ForAll([a], bsum_fn(a, 0) == 0, patterns=[bsum_fn(a, 0)])]
+
+
 class ContMixin:
+
+    def bsum_after_append(self, st, old, new, n, xterm):
+        """bsum(arr, k) = total length of the first k chunks (spec function, defined by recursion on k).
+        Instances of its definition are added where a chunk list changes; no recursive axiom is given to the
+        solver (it would be a matching loop)."""
+        k = z3.Int('k!bs')
+        st.assume(bsum_fn(new, n + 1) == bsum_fn(old, n) + blen(xterm))
+        st.assume(z3.ForAll([k], z3.Implies(k <= n, bsum_fn(new, k) == bsum_fn(old, k)),
+                            patterns=[bsum_fn(new, k), bsum_fn(old, k)]))
 
     # ---- generic accessors --------------------------------------------------------------
     def c_term(self, c, st):
@@ -142,9 +159,12 @@ class ContMixin:
             # list instantiate facts over the new one (E-matching does not look through store terms)
             new = fresh('app', arr.sort())
             i = z3.Int('i!ap')
-            st.assume(z3.Select(new, n) == self.term(v, st, t.args[0]))
+            xt = self.term(v, st, t.args[0])
+            st.assume(z3.Select(new, n) == xt)
             st.assume(z3.ForAll([i], z3.Implies(i != n, z3.Select(new, i) == z3.Select(arr, i)),
                                 patterns=[z3.Select(new, i), z3.Select(arr, i)]))
+            if t.args[0].kind == 'bytes':
+                self.bsum_after_append(st, arr, new, n, xt)
             self.write_cont(c, st, t.mk(n + 1, new), node)
             return
         self.write_cont(c, st, t.mk(n + 1, z3.Store(arr, n, self.term(v, st, t.args[0]))), node)
